@@ -22,6 +22,8 @@ What the filter promises for (a) (aligned_indent.py: split_words, _next_token, _
 import collections
 import re
 
+import vlib
+
 import sqlparse
 from sqlparse import lexer, tokens as T
 from sqlparse.exceptions import SQLParseError
@@ -286,6 +288,10 @@ def quote_desync(text):
     (a quote inside a comment, an unterminated literal, a quote inside a name/dollar-quoted token ...)."""
     for tt, v in lexer.tokenize(text):
         if tt in T.Literal.String.Single or tt in T.Literal.String.Symbol:
+            # backslash directly before a quote: the lexer may end the literal there (backtracking), SPLIT_REGEX always
+            # reads an escape (C06-serializer-backslash-quote)
+            if re.search(r'''\\['"]''', v):
+                return True
             continue
         if "'" in v or '"' in v:
             return True
@@ -297,6 +303,11 @@ def classify(fl, kf=None):
     cls = fl.get('class', '')
     text = ''.join(map(chr, fl.get('input', [])))
     ids = {k['class']: k['id'] for k in (kf or KNOWN)}
+    if kf is not None:
+        # an escaping exception is decided by C07: its open listed findings are known here too
+        for k in vlib.load_known_findings():
+            if k.get('property') == 'C07' and k.get('status') == 'open' and k.get('class'):
+                ids.setdefault(k['class'], k['id'])
     if cls in ('line-ends-in-blank', 'after-bare-CR', 'comment-absorbs-inserted-LF-after-CR',
                'string-or-comment-lines-partially-normalised') or \
             cls.startswith('line-ends-normalised-inside:Token.Literal.String'):
